@@ -340,7 +340,7 @@ Lemma keeps_refl s : keeps s s. Proof. repeat split; auto. Qed.
 Lemma keeps_trans s1 s2 s3 : keeps s1 s2 -> keeps s2 s3 -> keeps s1 s3.
 Proof.
   intros (A1 & A2 & A3 & A4 & A5 & A6 & A7 & A8) (B1 & B2 & B3 & B4 & B5 & B6 & B7 & B8).
-  repeat split; try congruence; auto. intros k. now rewrite B2.
+  repeat split; try congruence; auto; try (intros k; now rewrite B2).
 Qed.
 Lemma keeps_kind s s' k : keeps s s' -> kind_of s' k = kind_of s k.
 Proof. intros (_ & H & _). unfold kind_of. now rewrite H. Qed.
